@@ -1,11 +1,34 @@
 (** C01 — lossless encode/decode round trip reproduces every pixel exactly.
     Only statements, each closed by [exact <lemma>] and followed by
     [Print Assumptions]. *)
-From Coq Require Import List ZArith.
+From Coq Require Import List ZArith Bool.
 From Webp Require Import Base.Res Vp8l.Vp8lPixel Vp8l.Vp8lArr Vp8l.Vp8lPrefix Vp8l.Vp8lTransforms Vp8l.Vp8lSpec
-  Vp8l.Vp8lImport.
+  Vp8l.Vp8lEmit Vp8l.Vp8lEmitDecode Vp8l.Vp8lImport Vp8l.Vp8lRoundtrip.
 Import ListNotations.
 Open Scope Z_scope.
+
+(** ** The round trip as one theorem at model level.  The encoder's heuristics are
+    choices (transform list with data, how each sub-image and the residual image
+    are coded: cache bits, code plans, tokens); [valid] says the stream is well
+    formed ([wf_plan]: any transforms, with or without meta prefix image), the
+    written transforms are the applied ones, every forward step is applicable and
+    the tokens denote the residual image. *)
+Theorem C01_lossless_roundtrip : forall img o c,
+  valid img o c -> decode (emit (plan_of img o c)) = Ok (expected img o).
+Proof. exact lossless_roundtrip. Qed.
+Print Assumptions C01_lossless_roundtrip.
+
+Theorem C01_lossless_roundtrip_pixels : forall img o c,
+  valid img o c ->
+  exists im, decode (emit (plan_of img o c)) = Ok im /\ i_w im = s_w img /\ i_h im = s_h img /\
+    i_px im = map (fun p => if negb (o_exact o) && (pa p =? 0) then px_zero else p) (s_px img).
+Proof. exact lossless_roundtrip_pixels. Qed.
+Print Assumptions C01_lossless_roundtrip_pixels.
+
+(** the hypotheses are satisfiable *)
+Theorem C01_roundtrip_example : valid ex_src ex_opts ex_choices.
+Proof. exact ex_valid. Qed.
+Print Assumptions C01_roundtrip_example.
 
 (** ** The decoder inverts the encoder's transform chain: for every transform
     list (any subset and order, any tile bits, any tile data, any palette and
@@ -13,7 +36,7 @@ Open Scope Z_scope.
     reverse order, each with its recorded width, to the encoder's forward chain
     gives back the image. *)
 Theorem C01_inverse_chain : forall ts img,
-  chain_ok ts img -> apply_inverse ts (forward_chain ts img) = img.
+  Vp8lImport.chain_ok ts img -> apply_inverse ts (forward_chain ts img) = img.
 Proof. exact inverse_chain. Qed.
 Print Assumptions C01_inverse_chain.
 
